@@ -22,6 +22,7 @@ import Nq.Lemmas.TriggerLive
 import Nq.Lemmas.SelPrep
 import Nq.Lemmas.SelQueued
 import Nq.Lemmas.SchedHeap
+import Nq.Gen.SendLoop
 
 namespace Nq.Props.C16
 open Nq Nq.Trigger
@@ -506,6 +507,29 @@ theorem C16_roots_of_heap (pq : Nq.Sched.PQ) (h : Nq.Sched.Heap pq) :
     exact Nq.Lemmas.Sched.heap_root_le_mem pq h e he
 
 open Nq.SelPrep in
+/-- **The first scan is unconditional** (start-up of the trigger protocol).  The trigger only works between an injector and
+the process that holds the FIFO open at the moment of the pull; every injection whose publish-then-signal steps ran before
+the new daemon's first `open(lock/trigger)` — daemon down (ENXIO), previous daemon draining after TERM (the byte dies with
+that process), new daemon still in `pqstart()` — is covered by the scan of the first loop iteration alone.  In `Trigger`
+this is the ASSUMPTION that the daemon leaves its start-up state `.reopened` only into a scan (there is no step from
+`.reopened` to `.idle`; `dnext .reopened = dOpendir`; `Reach` contains every interleaving of complete injections with the
+start-up events, so `C16_no_lost_wakeup`/`C16_covered` speak about them).  Here it is discharged from the code: the
+translator reads `nexttodorun = now() + TODO_INIT_DELAY` and the `trigger_set()` call out of `todo_init()`
+(`Nq.Gen.SendLoop`, regenerated every run), and for EVERY snapshot taken while `nexttodorun` still has its initial value
+(it is only rewritten when a scan starts) at a clock that has not run backwards, the loop asks select for timeout 0 and
+`todo_do` passes its guard without any pull.  The proof needs `TODO_INIT_DELAY = 0`: with `now() + SLEEP_TODO` it fails. -/
+theorem C16_first_scan_unconditional (s : Snap) (t0 : Int) (h0 : 0 ≤ s.recent) (ht : t0 ≤ s.recent)
+    (hn : s.nexttodorun = t0 + ((Nq.Gen.SendLoop.TODO_INIT_DELAY : Nat) : Int)) (he : s.exitasap = false) :
+    timeout s = 0 ∧ (∀ ready, todoDoActs s ready = true) ∧ Nq.Gen.SendLoop.TODO_INIT_ARMS = true := by
+  have hd : ((Nq.Gen.SendLoop.TODO_INIT_DELAY : Nat) : Int) = 0 := by decide
+  have hle : s.nexttodorun ≤ s.recent := by rw [hn, hd]; omega
+  refine ⟨?_, ?_, rfl⟩
+  · have hm : s.nexttodorun ∈ dueTimes s := (mem_dueTimes s _).2 (Or.inr (Or.inr (Or.inr (Or.inl ⟨he, rfl⟩))))
+    exact (C16_no_spin s h0).1.2 (Or.inr (Or.inr (Or.inr ⟨_, hm, hle⟩)))
+  · intro ready
+    simp [todoDoActs, he, hle]
+
+open Nq.SelPrep in
 /-- **Rescan backstop** (complement for what the trigger model leaves out).  `Trigger.Ev.dRead n` stands for "readdir
 returned the name `n` and handed it to todo_do"; the failure paths of todo_do — `opendir` failing after `trigger_set()`
 has consumed the pull, and every `return`/`goto fail` after readdir, which leaves todo/n in place with no wake-up
@@ -699,6 +723,15 @@ example : ¬ Pending { recent := 10, nexttodorun := 20, cleanuptime := 30 } := b
 /-- the pre-epoch case really sleeps -/
 example : timeout { recent := -5, flagcleanup := true, nexttodorun := 0, cleanuptime := 3 } = 6 := by decide
 
+-- why the oracle judges the timeout at the SIMULATOR's clock: the same correct computation on a `recent` that is 700 s stale
+-- (not refreshed after an interrupted select) asks for 1501 s, which at the real time reaches 700 s past the forced rescan
+open Nq.SelPrep in
+example :
+    let stale : Snap := { recent := 1000000000, chans := [{ conc := 5 }, { conc := 5 }], jobRefs := [0, 0], nexttodorun := 1000001500, cleanuptime := 1000076431 }
+    let now : Int := 1000000700
+    timeout stale = 1501 ∧ (dueTimes { stale with recent := now }).any (fun t => decide (now + timeout stale - SLEEP_FUZZ > t)) = true ∧
+      timeout { stale with recent := now } = 801 := by decide
+
 -- complement of C16_never_past_any_queued (why its premise is checked on the implementation): a channel queue whose
 -- array is [t+3000, t+7] — the root is not the minimum, as after a sift-down that stops one level early — makes the
 -- same, correct, select preparation ask for 1501 s although a queued message is due in 7 s
@@ -746,5 +779,13 @@ example : (acceptAll {} [.dOpen, .dClose, .dOpen, .dOpendir, .dEnd,
 
 /-- the wrong order (scan, then re-arm) is not the model's daemon -/
 example : acceptAll {} [.dOpen, .dClose, .dOpendir] = none := by decide
+
+-- start-up leg: an injection that completed before the daemon's first step (link, open fails with ENXIO) is accepted from the
+-- initial state, the daemon's start-up (open; first todo_do: close, open, opendir) follows, and the first scan returns the entry
+example : (acceptAll {} [.iLink 5, .iOpen 5 false, .dOpen, .dClose, .dOpen, .dOpendir, .dRead 5, .dEnd]).map
+    (fun s => (s.todo, s.d)) = some ([], .idle) := by decide
+-- ... and from the start-up state `.reopened` there is no way to `idle` that skips the scan: closedir is rejected
+example : (acceptAll {} [.iLink 5, .iOpen 5 false, .dOpen]).bind (fun s => accept s .dEnd) = none := by decide
+
 
 end Nq.Props.C16
